@@ -1185,6 +1185,66 @@ func strideMatchesChunk(c *Ctx, rule string) {
 			}
 		}
 	}
+	// a round-trip count obtained by dividing a length by the chunk size must round up: with
+	// len/size (truncating) iterations the last partial chunk is never fetched
+	for _, fn := range p.KetoFuncs(sqlPkgRel) {
+		if isMigrationOrTestHelper(fn) {
+			continue
+		}
+		core.Instrs(fn, func(_ *ssa.BasicBlock, _ int, ins ssa.Instruction) {
+			q, ok := ins.(*ssa.BinOp)
+			if !ok || q.Op != token.QUO {
+				return
+			}
+			// numerator: len(x) itself (not len(x)+size-1)
+			lc, ok := q.X.(*ssa.Call)
+			if !ok {
+				return
+			}
+			if bi, ok := lc.Call.Value.(*ssa.Builtin); !ok || bi.Name() != "len" {
+				return
+			}
+			// does the quotient bound a loop? follow it through min/max/phi/conversions to a
+			// comparison that guards a loop back edge, or to the limit of a counting loop
+			seen := map[ssa.Value]bool{}
+			bounds := false
+			var follow func(v ssa.Value, depth int)
+			follow = func(v ssa.Value, depth int) {
+				if v == nil || seen[v] || depth > 6 || v.Referrers() == nil {
+					return
+				}
+				seen[v] = true
+				for _, ref := range *v.Referrers() {
+					switch x := ref.(type) {
+					case *ssa.Call:
+						if bi, ok := x.Call.Value.(*ssa.Builtin); ok && (bi.Name() == "max" || bi.Name() == "min") {
+							follow(x, depth+1)
+						}
+					case *ssa.Phi, *ssa.Convert, *ssa.ChangeType:
+						follow(ref.(ssa.Value), depth+1)
+					case *ssa.BinOp:
+						switch x.Op {
+						case token.LSS, token.LEQ, token.GTR, token.GEQ:
+							if core.InLoop(x.Block()) && x.Referrers() != nil {
+								for _, r2 := range *x.Referrers() {
+									if _, isIf := r2.(*ssa.If); isIf {
+										bounds = true
+									}
+								}
+							}
+						}
+					}
+				}
+			}
+			follow(q, 0)
+			if !bounds {
+				return
+			}
+			n++
+			r.Violate(rule, core.FuncName(fn), "chunk count", p.Pos(q.Pos()),
+				"the number of iterations of a chunked loop is len(...)/size with truncating division: when the length is not a multiple of the chunk size the last partial chunk is never processed (ids come back unresolved)")
+		})
+	}
 	if n < 1 {
 		// no loop of the package advances by a stride: nothing can be skipped between a chunk and
 		// the next (the chunks come from slices.Chunk or there are none)
